@@ -284,15 +284,18 @@ theorem noChecked_of_guard (c : Ctx) (e : Elem)
     simp at heq
     exact hguard a ha (by simp [heq])
 
-/-- `matchAttributes` level: the compound `[checked]` (no value pattern). -/
+/-- `matchAttributes` level: the compound `[checked]` (no value pattern) fails exactly when
+    `match_attribute_name` yields nothing, i.e. when its first value (`matchAttributeName`, the
+    head of `matchAttributeValues`) is `none`. -/
 theorem guard_of_matchAttributes (c : Ctx) (e : Elem)
     (h : matchAttributes c e [⟨"checked".toStr, [], none, none⟩] = false) :
     matchAttributeName c e "checked".toStr [] = none := by
+  rw [matchAttributeName_eq_head?]
   unfold matchAttributes at h
   simp only [List.all_cons, List.all_nil, Bool.and_true] at h
-  cases hm : matchAttributeName c e "checked".toStr [] with
-  | none => rfl
-  | some v => simp [hm] at h
+  cases hm : matchAttributeValues c e "checked".toStr [] with
+  | nil => rfl
+  | cons v vs => simp [hm] at h
 
 /-- The guard `:not([checked])` of the built-in `:indeterminate` selector
     (`html|input[type="radio"][name]:not([name='']):not([checked])`, the compound that carries the
